@@ -28,15 +28,36 @@ def scenarios(seed, tier):
     rnd = random.Random(seed * 7919 + 14)
     for i in range(n):
         r2 = random.Random(rnd.getrandbits(48))
-        stream = ['uncoupled', 'storage', 'any'][i % 3]
+        stream = ['uncoupled', 'storage', 'any', 'takes'][i % 4]
         if stream == 'uncoupled':
             s = gen.gen_portfolio(r2, tmax=12, tz_prob=0.1, kinds=['simple', 'transport', 'multi_nt', 'simple', 'plant_lp'], allow_mip=False,
                                   allow_periodic=False, allow_freq=False)
         elif stream == 'storage':
             s = gen.gen_portfolio(r2, tmax=12, tz_prob=0.1, kinds=['simple', 'transport', 'storage_se', 'storage_se'], allow_mip=False,
                                   allow_periodic=False, allow_freq=False, allow_blocks=False)
+        elif stream == 'takes':
+            # contracts / transports with take periods spanning several intervals: the only coupling; the interval shares add up
+            s = gen.gen_portfolio(r2, tmax=12, tz_prob=0.1, kinds=['contract', 'contract', 'ext_transport', 'simple'], allow_mip=False,
+                                  allow_periodic=False, allow_freq=False, allow_wacc=True)
         else:
             s = gen.gen_portfolio(r2, tmax=12, tz_prob=0.1, allow_periodic=False, allow_freq=False)
+        if r2.random() < 0.25:
+            # nothing is active in the first part of the horizon (first interval(s) without any asset)
+            T = s['grid']['T_nominal']
+            k0 = r2.randint(max(1, T // 3), max(1, (2 * T) // 3))
+            st = gen.P(s['grid'], k0)
+            if gen.ok_local(st, s['grid']):
+                for a in s['assets']:
+                    tgt = a['base']['args'] if a['type'] == 'ScaledAsset' else a['args']
+                    if a['type'] in ('OrderBook', 'StructuredAsset'):
+                        continue
+                    cur = tgt.get('start')
+                    if cur is None or pd.Timestamp(cur['$dt']) < st:
+                        tgt['start'] = gen.dtv(st)
+                    if 'end' in tgt and pd.Timestamp(tgt['end']['$dt']) <= pd.Timestamp(tgt['start']['$dt']):
+                        tgt.pop('end')
+                s['assets'] = [a for a in s['assets'] if a['type'] not in ('OrderBook', 'StructuredAsset')] or s['assets']
+                s['late_start'] = k0
         s['stream'] = stream
         s['parts'] = r2.choice([2, 3, 3, 4, 5])
         s['odd'] = r2.random() < 0.4      # interval not aligned with the horizon
@@ -131,15 +152,23 @@ def run_case(scn, drv):
         if len(o.mapping) and (o.mapping.index.max() >= len(o.c) or o.mapping['time_step'].max() >= tg.T):
             viol('interval %d: its own mapping points at variable %d of %d' % (k, o.mapping.index.max(), len(o.c)), what='interval_mapping')
         off += len(o.c)
+    # the nodal record of the joint problem names the same (step, node) pairs as the dispatch rows of the joint mapping
+    if rs['op'].map_nodal_restr is not None and len(m):
+        dm = m[m['type'] == 'd']
+        want = set((int(t), str(n)) for t, n in zip(dm['time_step'].values, dm['node'].values))
+        got = set((int(t), str(n)) for t, n in rs['op'].map_nodal_restr)
+        if want != got:
+            viol('nodal record of the split problem names %s but dispatch rows sit at %s' % (sorted(got - want)[:3], sorted(want - got)[:3]), what='nodal_steps')
     if len(m) and not set(int(s) for s in m['time_step'].values) <= set(int(i) for i in tg.I):
         viol('joint mapping has steps outside the original grid', what='steps')
     if scn['stream'] != 'any' or True:
         # same (asset, node, type, name, step, factor) rows as the unsplit problem whenever no asset builds rows differently per interval
         # (asset, node, type, step): the number of variables per step may legitimately differ (a contract needs one or two
         # variables depending on the data of the grid it is built for)
-        k0 = sorted(set((a, n, t, s_) for a, n, t, v, s_, f in key_rows(rec['op'].mapping)))
-        k1 = sorted(set((a, n, t, s_) for a, n, t, v, s_, f in key_rows(m)))
-        if scn['stream'] in ('uncoupled', 'storage') and k0 != k1:
+        # dispatch rows only: internal / size variables are booked per interval (a scale variable per interval)
+        k0 = sorted(set((a, n, t, s_) for a, n, t, v, s_, f in key_rows(rec['op'].mapping) if t == 'd'))
+        k1 = sorted(set((a, n, t, s_) for a, n, t, v, s_, f in key_rows(m) if t == 'd'))
+        if (scn['stream'] in ('uncoupled', 'storage', 'takes') or scn.get('late_start')) and k0 != k1:
             d0 = [x for x in k0 if x not in set(k1)][:2]
             d1 = [x for x in k1 if x not in set(k0)][:2]
             viol('mapping rows of the split problem differ from the unsplit ones: only unsplit %s, only split %s' % (d0, d1), what='steps')
@@ -182,7 +211,7 @@ def run_case(scn, drv):
             viol('nothing couples the intervals, but split value %.8g differs from unsplit %.8g' % (Vs, Vu), what='equals_unsplit')
         if scn['stream'] == 'storage' and Vs > Vu + tolu:
             viol('storages with start level = end level are the only coupling, but split value %.8g exceeds unsplit %.8g' % (Vs, Vu), what='le_unsplit')
-        if scn['stream'] in ('uncoupled', 'storage'):
+        if scn['stream'] in ('uncoupled', 'storage', 'takes'):
             # transport the concatenated solution into the unsplit problem: match variables by their mapping rows
             x = transport(rs, rec)
             if x is None:
